@@ -4,7 +4,8 @@ package main
 // suites differ in their generators. One recording storage, one live trie, oracle content, checkpoint, proof slots,
 // a partial trie imported from a path export.
 //
-//	upd <key> <val> <w>          Update(key, val, w)                       -> ok | <err>
+//	upd <key> <val> <w>          Update(key, val, w)                       -> ok | <err> | zeroweight (w = 0 with a value: not executed)
+//	updzw <key> <v0> <v> <w>     Update(key, v0, 0); Weight(); Update(key, v, w) in one op      -> ok <weight in between>
 //	updel <key>                  Update(key, nil, 0)  (delete)             -> ok | notfound | <err>
 //	updel0 <key>                 Update(key, []byte{}, 0): the same delete, "no value" as an empty NON-NIL slice
 //	updbad <nil|empty|hex> <v|-> <w>   Update with a key that is not 32 bytes        -> invalidkey
@@ -100,14 +101,12 @@ type wrun struct {
 	muts        int
 	commits     int
 
-	f2seen    bool     // two live keys carried byte-equal (value, weight) at some time
-	f2Pend    []*f2rec // … and one of two such twins was deleted / overwritten (one record per removal)
-	f2Armed   bool     // two passes ran: the shared node is gone
-	f2Damaged bool     // a covered F2 failure was recorded: the storage is damaged from here on
-	f2Wrecked bool     // … and a mutation of the live trie failed on the missing node: the trie itself is not judged any more
-	cp        *wcheckpoint
-	lastPuts  map[string]bool // keys written by the most recent commit batch since the checkpoint
-	durable   []wdurable
+	f2seen   bool     // two live keys carried byte-equal (value, weight) at some time
+	f2Pend   []*f2rec // … and one of two such twins was deleted / overwritten (one record per removal)
+	f2Armed  bool     // two passes ran: the shared node is gone
+	cp       *wcheckpoint
+	lastPuts map[string]bool // keys written by the most recent commit batch since the checkpoint
+	durable  []wdurable
 
 	slots map[int]*wslot
 
@@ -125,9 +124,9 @@ type wrun struct {
 	faultClass       string
 	pbatch           storage.Batcher // the batch of a Commit that has not been written yet (ops commitb / wbatch)
 	pLvl             int
-	gcSinceCommitB   int  // GC passes since that Commit
-	gcGap            bool // two passes ran between a Commit and the write of its batch
-	gapDamaged       bool // a failure was filed under that finding: the storage is damaged from here on
+	gcSinceCommitB   int    // GC passes since that Commit
+	gcGap            bool   // two passes ran between a Commit and the write of its batch
+	fired            string // id of the open finding whose fingerprint has matched a failure of this case: nothing is judged afterwards
 	faultK           int
 	commitReadFailed bool            // a Get failed inside the last Commit: its "created" list may miss nodes (fix 955fb55: leak, not loss)
 	changed          map[string]bool // keys changed since the last commit / reload / rollback
@@ -166,26 +165,14 @@ func (x *wrun) fail(i int, f string, a ...interface{}) {
 //     overwritten, that change was committed, and two GC passes ran afterwards.
 //
 // Everything else in such a case — Weight, Root, wrong owner, mirror mismatch, any failure before the second pass — is
-// judged like in any other case (until a mutation of the live trie itself fails on the missing node).
+// judged like in any other case. Once the fingerprint has matched a failure (x.fired), storage and trie are corrupt: the
+// rest of the case is not judged.
 var f2Sites = []string{"reopened trie cannot produce the proof", "live trie cannot answer the owner", "owner of block", "honest proof of block",
 	"proof of block", "checkpoint not intact", "crash after storage operation"}
 
 func (x *wrun) f2Covers(msg string) bool {
-	if x.f2Wrecked {
-		return true
-	}
-	if !x.f2Armed || !(strings.Contains(msg, "notfound")) {
+	if !x.f2Armed || !strings.Contains(msg, "notfound") {
 		return false
-	}
-	if x.f2Damaged {
-		// a MUTATION of the live trie that fails on the missing node may have been applied halfway (an operation error of
-		// the storage is outside the properties' quantifier, notes/C11.md): from here on the in-memory trie is not judged
-		for _, s := range []string{"update failed", "delete of a live key returned", "commit failed", "update on the source trie failed", "delete on the source trie"} {
-			if strings.Contains(msg, s) {
-				x.f2Wrecked = true
-			}
-		}
-		return true
 	}
 	for _, s := range f2Sites {
 		if strings.Contains(msg, s) {
@@ -221,20 +208,31 @@ func (x *wrun) failIn(cover string, i int, f string, a ...interface{}) {
 		x.held = append(x.held, msg)
 		return
 	}
+	if x.pbatch != nil && strings.Contains(msg, "notfound") &&
+		(strings.Contains(msg, "live trie cannot answer") || strings.Contains(msg, "owner of block") || strings.Contains(msg, "honest proof of block") || strings.Contains(msg, "the live trie answers")) {
+		// a read of the LIVE trie between a Commit and the write of its batch: what the Commit collapsed to references exists
+		// only in the unwritten batch — the caller writes the batch before using the trie again (notes/C11.md); not judged
+		x.tags["obs:read-between-commit-and-batch-write"] = true
+		return
+	}
+	if cover == "" && x.fired != "" {
+		// an open finding has fired in this case (its full fingerprint matched a failure): storage and trie are corrupt from
+		// there on, nothing after it is judged
+		cover = x.fired
+	}
 	if cover == "" && x.gcGap && strings.Contains(msg, "notfound") {
-		// the previous durable root is unresolvable — and so is whatever shares its deleted nodes: the live trie's collapsed
-		// references, later roots built on them (reads that resolve nodes only; after a first such failure any operation)
-		site := x.gapDamaged
+		// finding C11-gc-between-commit-and-batch-write: a read that resolves nodes does not find one
 		for _, s := range f2Sites {
-			site = site || strings.Contains(msg, s)
-		}
-		if site {
-			cover, x.gapDamaged = findGCGap, true
+			if strings.Contains(msg, s) {
+				cover, x.fired = findGCGap, findGCGap
+				x.tags["finding-fired:gc-gap"] = true
+				break
+			}
 		}
 	}
 	if cover == "" && x.f2Covers(msg) {
-		cover = findF2
-		x.f2Damaged = true
+		cover, x.fired = findF2, findF2
+		x.tags["finding-fired:F2"] = true
 	}
 	if cover != "" {
 		msg = "[" + cover + "] " + msg
@@ -425,11 +423,14 @@ func (x *wrun) step(i int, f []string) string {
 }
 
 func (x *wrun) failMsg(msg string) {
-	if x.f2Covers(msg) {
-		x.f2Damaged = true
-		msg = "[" + findF2 + "] " + msg
+	cover := x.fired
+	if cover == "" && x.f2Covers(msg) {
+		cover, x.fired = findF2, findF2
+	}
+	if cover != "" {
+		msg = "[" + cover + "] " + msg
 		if x.res.Finding == "" {
-			x.res.Finding = findF2
+			x.res.Finding = cover
 		}
 	} else {
 		x.uncov = true
@@ -474,8 +475,49 @@ func (x *wrun) fullCheck(i int) {
 
 func (x *wrun) step1(i int, f []string) string {
 	switch f[0] {
+	case "updzw":
+		// updzw <key> <v0> <v> <w>: Update(key, v0, 0) — a value with weight 0: present, weighs nothing, owns no block — then
+		// Weight(), then at once Update(key, v, w) with another value and a positive weight. One op, so that no commit, reload
+		// or checkpoint can fall between the two: a trie of total weight 0 that is not empty is outside the domain (positive
+		// weights; it reopens as the empty trie).
+		key, v0, val, w := unhx(f[1]), unhx(f[2]), unhx(f[3]), u64(f[4])
+		before, had := x.live[string(key)]
+		var mid uint64
+		out := guard(func() string {
+			if err := x.t.Update(append([]byte(nil), key...), append([]byte(nil), v0...), 0); err != nil {
+				return werr(err)
+			}
+			mid = x.t.Weight()
+			return werr(x.t.Update(append([]byte(nil), key...), append([]byte(nil), val...), w))
+		})
+		if out != "ok" {
+			x.fail(i, "update failed: %s", out)
+			return out
+		}
+		want := x.live.total()
+		if had && !bytes.Equal(before.val, v0) {
+			want -= before.w // (a same-value rewrite keeps the old weight)
+		}
+		if mid != want {
+			x.fail(i, "Weight() after the zero-weight update = %d, want %d", mid, want)
+		}
+		if had && bytes.Equal(before.val, v0) && bytes.Equal(v0, val) {
+			w = before.w
+		}
+		x.live[string(key)] = went{val, w}
+		x.f2Change(string(key), before, had)
+		x.noteChanged(string(key))
+		x.dirty = true
+		x.muts++
+		x.noteContent()
+		x.checkWeight(i)
+		x.tags["zero-weight-update"] = true
+		return fmt.Sprintf("ok %d", mid)
 	case "upd":
 		key, val, w := unhx(f[1]), unhx(f[2]), u64(f[3])
+		if w == 0 && len(val) > 0 {
+			return "zeroweight" // outside the domain (positive weights): not executed, the same token on the model side
+		}
 		out := guard(func() string { return werr(x.t.Update(append([]byte(nil), key...), append([]byte(nil), val...), w)) })
 		if out != "ok" {
 			x.fail(i, "update failed: %s", out)
@@ -1106,6 +1148,9 @@ func (x *wrun) opMirror(i int, f []string) string {
 				return fmt.Sprintf("ok:%d", ch)
 			}
 		})
+	}
+	if f[0] == "mupd" && u64(f[3]) == 0 && len(unhx(f[2])) > 0 {
+		return "zeroweight"
 	}
 	rs := apply(x.t)
 	if !x.retrying && x.st.fired() != x.fired0 && !strings.HasPrefix(rs, "ok") && rs != "notfound" {
